@@ -63,7 +63,7 @@ class C14(Prop):
         with hta.CaseDir("c14") as d:
             ta = write_and_load(case, d)
             req = [r for r in case["req"] if r in ta.t.traces]
-            obs = {"prop": "C14", "err": "", "ranks": [], "minTs": 0}
+            obs = {"prop": "C14", "err": "", "ranks": [], "minTs": 0, "blockedErr": ""}
             rows = {r: rows_full(ta, r) for r in req}
             try:
                 qs = ta.get_queue_length_time_series(ranks=req)
@@ -76,6 +76,18 @@ class C14(Prop):
                     bwser[r] = [] if r not in bws else [
                         {"ts": hta.ival(t[0]), "pid": hta.ival(t[1]), "key": str(t[2]), "val": hta.scaled(t[3], 64)}
                         for t in bws[r][["ts", "pid", "name", "memory_bw_gbps"]].itertuples(index=False)]
+                # beyond the listed property (DESIGN.md section 5, "beyond"): time spent at or above a queue length, derived from the series
+                blocked: Dict[int, List[Dict[str, int]]] = {r: [] for r in req}
+                obs["blockedErr"] = ""
+                try:
+                    for m in (1, 2):
+                        bt = ta.get_time_spent_blocked_on_full_queue(qs, max_queue_length=m)
+                        if bt is not None:
+                            for t in bt[["rank", "stream", "duration_at_max_queue_length"]].itertuples(index=False):
+                                if int(t[0]) in blocked:
+                                    blocked[int(t[0])].append({"m": m, "stream": hta.ival(t[1]), "dur": hta.ival(t[2])})
+                except Exception as ex:
+                    obs["blockedErr"] = hta.exc_str(ex)
                 ta.generate_trace_with_counters(ranks=req)
                 base = min(int(e["ts"]) for r in case["ranks"] for e in r["events"] if "ts" in e)
                 obs["minTs"] = hta.ival(ta.t.min_ts) - base
@@ -94,7 +106,7 @@ class C14(Prop):
                                 ceq.append({"ts": hta.ival(e["ts"]) - base, "pid": hta.ival(e["pid"]), "sid": hta.ival(e["id"]), "val": hta.ival(val), "name": e["name"]})
                             else:
                                 cebw.append({"ts": hta.ival(e["ts"]) - base, "pid": hta.ival(e["pid"]), "sid": -1, "val": hta.scaled(val, 64), "name": e["name"]})
-                    obs["ranks"].append({"rank": r, "file": file_entries(case, r), "rows": rows[r], "q": qser[r], "bw": bwser[r], "ceq": ceq, "cebw": cebw})
+                    obs["ranks"].append({"rank": r, "file": file_entries(case, r), "rows": rows[r], "q": qser[r], "bw": bwser[r], "ceq": ceq, "cebw": cebw, "blocked": blocked[r]})
             except Exception as ex:
                 obs["err"] = hta.exc_str(ex)
             return obs
